@@ -18,8 +18,10 @@ import time
 VERIF = os.path.dirname(os.path.dirname(os.path.dirname(os.path.abspath(__file__))))
 REPO = os.environ.get("PV_REPO", "/repo")
 SPEC = os.path.join(VERIF, "spec")
-EVID = os.path.join(VERIF, "evidence")
-REPLAYS = os.path.join(VERIF, "replays")
+# PV_EVID / PV_REPLAYS: scratch locations for mutant / demo runs, so that they do
+# not overwrite the evidence of the real check
+EVID = os.environ.get("PV_EVID") or os.path.join(VERIF, "evidence")
+REPLAYS = os.environ.get("PV_REPLAYS") or os.path.join(VERIF, "replays")
 FINDINGS_FILE = os.path.join(VERIF, "known_findings.json")
 GUARD = "SVALAT_PSYCLONE_VERIF"
 NCPU = min(16, os.cpu_count() or 1)
